@@ -532,8 +532,10 @@ class Facts:
 
     def cfg_flavour(self):
         f = self.cfg_features()
-        if self.cfg == "portable1":
+        if self.cfg in ("portable1", "portable32"):
             return "portable1"
+        if self.cfg == "x86-32":
+            return "x86-32"
         if self.cfg == "neon1":
             return "neon1"
         if "pure" in f:
